@@ -61,6 +61,10 @@ pub(crate) fn run() -> Result<(), Error> {
         csum,
         if changed { "changed" } else { "unchanged" }
     );
+    // Only the builder knows when this build has really finished.  A mark left
+    // by an earlier attempt that failed or was interrupted must survive until
+    // then, also when the checksum comes out the same as that attempt's.
+    let unfinished = f.is_unfinished();
     f.set_generated();
     if changed {
         f.set_changed(ptx.state().env()); // update_stamp might skip this if mtime is identical
@@ -73,6 +77,9 @@ pub(crate) fn run() -> Result<(), Error> {
     } else {
         // unchanged
         f.set_checked(ptx.state().env());
+        if unfinished {
+            f.mark_unfinished();
+        }
     }
     f.save(&mut ptx)?;
     ptx.commit()?;
